@@ -25,7 +25,7 @@ def body(c):
     if c.quick:
         depths, light, sizes, cuts, heavy, nmut, budget = [100, 1000, 10000], [100], [3000], [0, 1, 5, 10, 15, 19], ["execute", "json"], 250, 30000
     else:
-        depths, light, sizes, cuts = [100, 300, 1000, 3000, 10000, 30000, 100000], [100, 300, 1000], [1000, 10000], list(range(20))
+        depths, light, sizes, cuts = [100, 300, 1000, 3000, 10000, 30000], [100, 300, 1000], [1000, 10000], list(range(20))
         heavy, nmut, budget = ["execute", "json", "get", "multipart", "ws"], 6000, 120000
     gen_cfg = c.path("Gen_Hostile.cfg")
     with open(gen_cfg, "w") as f:
